@@ -331,7 +331,7 @@ class SendRun(Scenario):
                 self.deliver(a, "stale-ack")
         elif k == 3:                           # ack from outside the window: must be ignored
             d = self.digest(self.side, self.inv)
-            far = (d[8] + (self.actual_w or 1) + ch.pick(100) + 1) % 256
+            far = (d[8] + (self.actual_w or self.params["wb"]) + ch.choose([0, 0, 0, 1, 7, 100])) % 256
             a = {"t": 4, "srv": 1 if self.ty == 0 else 0, "id": self.inv, "seq": far,
                  "win": self.actual_w or self.params["wb"]}
             if (far - d[8]) % 256 >= a["win"]:
@@ -484,6 +484,10 @@ class RecvRun(Scenario):
         limit = 30 * self.count + 100
         while steps < limit and self.receiving() and self.delivered == 0:
             steps += 1
+            if self.k + 1 >= self.count:
+                self.fail("completion", "all %d segments were delivered in order, nothing was handed to the "
+                                        "application" % self.count)
+                break
             d = self.digest(self.side, self.inv)
             w = d[9] or 1
             if not ch.flip(hostile):
@@ -499,10 +503,11 @@ class RecvRun(Scenario):
                     self.send(j, "overtaken")
             elif c == 2:                                       # the first segment again
                 self.send(0, "restart")
-            elif c == 3:                                       # late segment ack of the other direction
+            elif c == 3 and (self.ty == 3 or (p.get("timeouts", True) and ch.flip(100))):
+                # late segment ack of the other direction (a server still receiving aborts on it)
                 self.other(L.frame(0, {"t": 4, "srv": 1 if self.ty == 3 else 0, "id": self.inv,
                                        "seq": ch.pick(4), "win": 1 + ch.pick(4)}), "late-ack")
-            elif c == 4 and ch.flip(150):                      # the receiver's timer: the transfer is given up
+            elif c == 4 and p.get("timeouts", True) and ch.flip(150):   # the receiver's timer: the transfer is given up
                 rr = L.fire_next()
                 if rr:
                     self.other(rr[1], "timeout")
@@ -597,9 +602,9 @@ def long_specs(ctx, rng):
         out.append(("send", {"role": "s", "m": 50, "n": 45 * c - 3, "wa": rng.choice([4, 8]), "wb": 8,
                              "hostile": 120, "count_hint": c}))
         out.append(("recv", {"role": "s", "size": 44, "n": n, "wa": 8, "wb": 8, "hostile": 150, "count_hint": c,
-                             "tail": [1, 1]}))
+                             "tail": [1, 1], "timeouts": False}))
         out.append(("recv", {"role": "c", "size": 45, "n": 45 * c - 3, "wa": 5, "wb": 8, "hostile": 150,
-                             "count_hint": c, "tail": []}))
+                             "count_hint": c, "tail": [], "timeouts": False}))
     return out
 
 
